@@ -88,11 +88,7 @@ func gridCases(widths []int, full, allCtx bool, yield func(Case) bool) {
 	lit := func(v *big.Int, kind string, bits, n int) Lit {
 		l := Lit{V: v.String(), Hex: n%5 == 4}
 		if v.Sign() < 0 {
-			l.Neg = "cast"
-			_, mx := minMax(kind, bits)
-			if new(big.Int).Neg(v).Cmp(mx) <= 0 && n%3 == 2 {
-				l.Neg = "unary"
-			}
+			l.Neg = negSpelling(kind, bits, v, n)
 		}
 		return l
 	}
